@@ -67,6 +67,9 @@ fn pick_family(rng: &mut Rng, blocky: bool, anchor: usize) -> Family {
     if (blocky && rng.chance(60, 100)) || (!blocky && rng.chance(4, 100)) {
         return synth_block_family(rng, anchor);
     }
+    if !blocky && rng.chance(14, 100) {
+        return crate::astgen::family(rng);
+    }
     pick_family0(rng, blocky).clone()
 }
 
@@ -267,6 +270,7 @@ pub fn generate(seed: u64, flavor: &str) -> RunSpec {
                 ops.push(Op::Compile {
                     slot: s,
                     key: k.clone(),
+                    drop_first: false,
                 });
             }
         }
@@ -277,6 +281,7 @@ pub fn generate(seed: u64, flavor: &str) -> RunSpec {
             ops.push(Op::Compile {
                 slot: s,
                 key: slot_key[s].clone(),
+                drop_first: false,
             });
         }
         let n = rng.range(3, 12);
@@ -343,15 +348,19 @@ pub fn generate(seed: u64, flavor: &str) -> RunSpec {
                     open[it] = false;
                     Op::DropIter { it }
                 }
-                88..=91 => Op::Recompile { slot },
-                92..=95 => {
+                88..=90 => Op::Recompile { slot },
+                91..=95 => {
                     // another object: same key (twin), a flag variant, or another family
-                    let k = match rng.below(3) {
+                    let k = match rng.below(4) {
                         0 => slot_key[slot].clone(),
                         1 => vary_key(&mut rng, &slot_key[slot]),
                         _ => rng.pick(&fams).key.clone(),
                     };
-                    Op::Compile { slot, key: k }
+                    Op::Compile {
+                        slot,
+                        key: k,
+                        drop_first: rng.chance(50, 100),
+                    }
                 }
                 96..=97 => {
                     // F5: drop and immediately compile something else in its place
@@ -359,6 +368,7 @@ pub fn generate(seed: u64, flavor: &str) -> RunSpec {
                     Op::Compile {
                         slot,
                         key: rng.pick(&fams).key.clone(),
+                        drop_first: false,
                     }
                 }
                 _ => Op::IsMatch {
@@ -372,6 +382,7 @@ pub fn generate(seed: u64, flavor: &str) -> RunSpec {
         scripts.push(ops);
     }
 
+    let fresh_threads = rng.chance(25, 100);
     // --- fault plan: injected caller crashes (F2)
     let mut crashes = Vec::new();
     if rng.chance(30, 100) {
@@ -418,5 +429,6 @@ pub fn generate(seed: u64, flavor: &str) -> RunSpec {
         scripts,
         crashes,
         decisions: None,
+        fresh_threads,
     }
 }
